@@ -51,15 +51,18 @@ func C06_Quorum() {
 		total += w[i]
 		members[i] = interfaces.CommitteeMember{Id: primitives.MemberId{ids[i]}, Weight: primitives.MemberWeight(w[i])}
 	}
-	env.Assume(total > 0)
-	fRef := (total - 1) / 3
-	qRef := total - fRef
+	// total weight 0 (a weightless committee) is included: floor((0-1)/3) = -1, so Q = W - f = 1 and nothing is a quorum;
+	// f itself is not representable there and only has to stay below Q
+	zero := total == 0
+	fRef := env.IteU64(zero, 0, (total-1)/3)
+	qRef := env.IteU64(zero, 1, total-fRef)
 
 	weights := GetWeights(members)
 	f := CalcByzMaxWeight(weights)
 	q := CalcQuorumWeight(weights)
-	env.Assert("C06.f_exact", uint64(f) == fRef)
+	env.Assert("C06.f_exact", env.Or(zero, uint64(f) == fRef))
 	env.Assert("C06.q_exact", uint64(q) == qRef)
+	env.Assert("C06.f_below_q", uint64(f) < uint64(q))
 
 	raw1, l1 := c06List("l1", m)
 	raw2, l2 := c06List("l2", m)
@@ -69,9 +72,10 @@ func C06_Quorum() {
 	ref1 := c06RefWeight(ids, raw1, w)
 	ref2 := c06RefWeight(ids, raw2, w)
 	env.Assert("C06.weight", env.And(uint64(w1) == ref1, env.And(uint64(w2) == ref2, uint64(hw1) == ref1)))
-	env.Assert("C06.thresholds_reported", env.And(uint64(q1) == qRef, uint64(b1) == fRef))
+	env.Assert("C06.thresholds_reported", env.And(uint64(q1) == qRef, env.Or(zero, uint64(b1) == fRef)))
 	env.Assert("C06.isquorum_def", isQ1 == (ref1 >= qRef))
-	env.Assert("C06.hashonest_def", hon1 == (ref1 > fRef))
+	env.Assert("C06.hashonest_def", env.Or(zero, hon1 == (ref1 > fRef)))
+	env.Assert("C06.weightless_is_no_quorum", env.Implies(ref1 == 0, env.Not(isQ1)))
 
 	// intersection weight: members present in both lists
 	inter := uint64(0)
@@ -95,7 +99,7 @@ func C06_Quorum() {
 		rest[i] = primitives.MemberId{env.IteU8(inB, 0, ids[i])} // id 0 is an outsider
 	}
 	isQrest, _, _ := IsQuorum(rest, members)
-	env.Assert("C06.attain", env.Implies(bw <= fRef, isQrest))
+	env.Assert("C06.attain", env.Implies(env.And(env.Not(zero), bw <= fRef), isQrest))
 
 	// monotonicity under list extension
 	x := env.NondetU8("extra")
